@@ -213,6 +213,12 @@ def s_case(draw):
         calls.append(c)
         last = c['s']
     later = [s_call() for _ in range(draw(st.integers(0, 3)))]
+    worm_calls = [c for c in calls if c['fn'] == 'worm']
+    if worm_calls and draw(st.booleans()):
+        # re-declare an earlier worm mating with a friction coefficient on the other side of the criterion
+        c = dict(draw(st.sampled_from(worm_calls)))
+        c['x'] = draw(st.sampled_from([0.0, 0.01, 0.9, 0.99, 1.0]))
+        later.append(c)
     return {'elements': els, 'calls': calls, 'later': later}
 
 
